@@ -592,3 +592,10 @@ func TestVerif_C38(t *testing.T) {
 	stt := vx.Explore(r, t, "B/two-loaders", sc, xplore.Options{Policy: xplore.Preempt, Bound: bound, LockPoints: true, MaxSteps: 200}, check)
 	r.Note("B/two-loaders: execs(this shard)=%d", stt.Execs)
 }
+
+// TestVerifRace_C38 runs every scenario body free (gates answer at once, no oracle) under the race detector.
+func TestVerifRace_C38(t *testing.T) {
+	xplore.Free = 2
+	defer func() { xplore.Free = 0 }()
+	TestVerif_C38(t)
+}
